@@ -666,11 +666,20 @@ pub fn run(ctx: &Ctx) -> Value {
     let mut tr = Tw::new(&ctx.out, "Trace_TzRule", ctx.t(1_500, 30_000));
     let n_rules = ctx.t(100, 1_000);
     let (mut rules, mut rule_public, mut out_of_scope) = (0usize, 0usize, 0usize);
-    for i in 0..(WITNESS_RULES.len() + n_rules) {
-        let witness = i < WITNESS_RULES.len();
+    // every cell of the day-of-year arithmetic: the zero-based `n` form and the `Jn` form a few days into each month,
+    // looked up in a leap year and a common year (a wrong cumulative-days cell shifts a transition by a day)
+    let mut witness_rules: Vec<(String, bool)> = WITNESS_RULES.iter().map(|(t, v)| (t.to_string(), *v)).collect();
+    let cumul = [0, 31, 59, 90, 120, 151, 181, 212, 243, 273, 304, 334];
+    for m in 0..12usize {
+        witness_rules.push((format!("AAA3BBB,{}/2,J{}/2", cumul[m] + 4, cumul[(m + 6) % 12] + 9), false));
+        witness_rules.push((format!("AAA3BBB,J{}/2,{}/2", cumul[m] + 27, cumul[(m + 5) % 12] + 24), false));
+    }
+    let n_cells_from = WITNESS_RULES.len();
+    for i in 0..(witness_rules.len() + n_rules) {
+        let witness = i < witness_rules.len();
         let in_scope = witness || i % 20 != 19;
         if !in_scope { out_of_scope += 1; }
-        let g = if witness { GenRule { text: WITNESS_RULES[i].0.to_string(), v3: WITNESS_RULES[i].1 } } else { gen_rule(&mut rng, true, in_scope) };
+        let g = if witness { GenRule { text: witness_rules[i].0.clone(), v3: witness_rules[i].1 } } else { gen_rule(&mut rng, true, in_scope) };
         let z = Zone::from_tz_rule(g.text.as_bytes(), g.v3);
         let ze = rule_zone_event(&g, "rule", &z);
         tr.emit(ze.clone());
@@ -678,7 +687,7 @@ pub fn run(ctx: &Ctx) -> Value {
         let Ok(z) = z else { continue };
         let Ok(m) = Model::from_describe(&z.describe()) else { continue };
         let alt = alt_of(&m);
-        let years: Vec<i32> = if ctx.quick() { let extra = if witness { 2037 } else { RULE_YEARS[rng.below(18)] }; let mut v: Vec<i32> = RULE_YEARS.iter().copied().filter(|_| rng.chance(1, 3)).collect(); if !v.contains(&extra) { v.push(extra); } v } else { RULE_YEARS.to_vec() };
+        let years: Vec<i32> = if witness && i >= n_cells_from { vec![2000, 2037] } else if ctx.quick() { let extra = if witness { 2037 } else { RULE_YEARS[rng.below(18)] }; let mut v: Vec<i32> = RULE_YEARS.iter().copied().filter(|_| rng.chance(1, 3)).collect(); if !v.contains(&extra) { v.push(extra); } v } else { RULE_YEARS.to_vec() };
         let q = rule_queries(&alt, &years, &mut rng);
         rule_hook_events(&mut tr, &ze, &alt, &z, &q);
         // TZ=<rule>: the environment route never uses the version-3 extensions, prefers a file of that name, and the public
